@@ -168,7 +168,7 @@ func init() {
 	registerProperty(&PropertyConfig{
 		ID:      "C03",
 		Explain: "relocation contracts over an abstract instruction stream (x86asm.Decode replaced by its contract): displacement re-encoding exact or panics, relocated instruction keeps its absolute target and its non-displacement bytes, placeholder frame, all errors precede the write",
-		Trusted: []string{"x86asm.Decode contract (C16: bounded stand-in)", "|from - trampoline| < 2^31 and targets within one image (Go linker limit for amd64 text)", "package initialisers ran (opExpand contents)", "fixRelativeAddr is a trusted contract (its two fixBlock passes stop at the same boundary); checkJumpBetween is proved per iteration (step clauses), the lift to the whole instruction stream is an induction on paper"},
+		Trusted: []string{"x86asm.Decode contract (C16: bounded stand-in)", "|from - trampoline| < 2^31 and targets within one image (Go linker limit for amd64 text)", "package initialisers ran (opExpand contents)", "checkJumpBetween is proved per iteration (enter/step clauses): the lift to the whole instruction stream of the function is an induction on paper; that both fixBlock passes of fixRelativeAddr stop at the same instruction boundary is not stated as a clause"},
 		Replay: func(o *Options, g *groupResult, model map[string]string) (string, string, bool) {
 			switch {
 			case strings.HasPrefix(g.name, "internal/patch.fixBlock#"):
